@@ -1,6 +1,7 @@
 package c12
 
 import (
+	"context"
 	"fmt"
 	"os"
 	"sync"
@@ -8,8 +9,11 @@ import (
 	"testing"
 	"time"
 
+	"github.com/prometheus/alertmanager/silence"
+
 	"verif/harness/model"
 	"verif/harness/scen"
+	"verif/harness/silh"
 	"verif/harness/sim"
 	"verif/harness/sysrun"
 	"verif/harness/vf"
@@ -96,5 +100,78 @@ func TestExpireRacesInPlaceEdits(t *testing.T) {
 		sub.Count("late_edits_that_kept_the_id", sameID.Load())
 		sub.Count("late_edits_with_a_new_id", newID.Load())
 		sub.Case(vf.Digest(round), lateEdits.Load() > 0)
+	}
+}
+
+// TestMatcherSetValidation: the store also accepts silences with several matcher sets (alternatives;
+// the v2 API always sends one). Every set must contain a matcher that does not match the empty string,
+// wherever the offending set stands in the list; a refused create or edit leaves the addressed silence
+// untouched.
+func TestMatcherSetValidation(t *testing.T) {
+	run := vf.Cur()
+	sub := run.Sub("matcher-set-validation", "store level (Silences.Set): silences with 1-3 matcher sets of which one consists only of matchers that match the empty string (name=\"\", name=~\".*\", name=~\"x*\"), at every position of the list, as a create and as an edit by id of an existing active silence: must be refused, and after a refused edit the addressed silence is still active with its old matchers; the same lists without the offending set must be accepted; non-trivial = every case; distinct by (position, sets, kind)", 6)
+	// (negative matchers are not counted as matching the empty string by the validation rule, by design)
+	empties := [][]model.Matcher{{{Name: "a", Op: "=", Value: ""}}, {{Name: "a", Op: "=~", Value: ".*"}}, {{Name: "a", Op: "=", Value: ""}, {Name: "b", Op: "=~", Value: "x*"}}}
+	good := func(k int) []model.Matcher {
+		return []model.Matcher{{Name: "alertname", Op: "=", Value: fmt.Sprintf("A%d", k)}}
+	}
+	for nsets := 1; nsets <= 3; nsets++ {
+		for pos := 0; pos < nsets; pos++ {
+			for ei, bad := range empties {
+				st, err := silh.NewStore(time.Hour, nil, silence.Limits{})
+				if err != nil {
+					t.Fatal(err)
+				}
+				var sets, clean [][]model.Matcher
+				for k := 0; k < nsets; k++ {
+					if k == pos {
+						sets = append(sets, bad)
+					} else {
+						sets = append(sets, good(k))
+						clean = append(clean, good(k))
+					}
+				}
+				now := time.Now()
+				w := map[string]any{"sets": sets, "offending_position": pos}
+				// create
+				s := silh.NewSilence("", sets, now, now.Add(time.Hour), "c")
+				if err := st.S.Set(context.Background(), s); err == nil {
+					sub.Violation("silence-with-a-matcher-set-matching-everything-accepted", w)
+					continue
+				}
+				// edit by id of an existing silence
+				base := silh.NewSilence("", [][]model.Matcher{good(9)}, now, now.Add(time.Hour), "base")
+				if err := st.S.Set(context.Background(), base); err != nil {
+					t.Fatal(err)
+				}
+				edit := silh.NewSilence(base.Id, sets, now, now.Add(time.Hour), "edit")
+				if err := st.S.Set(context.Background(), edit); err == nil {
+					w["kind"] = "edit by id"
+					sub.Violation("silence-with-a-matcher-set-matching-everything-accepted", w)
+					continue
+				}
+				all := st.All()
+				okBase := false
+				for _, x := range all {
+					if x.Id == base.Id && x.EndsAt.AsTime().After(time.Now()) && len(silh.RefSets(x)) == 1 && silh.RefSets(x)[0][0].Value == "A9" {
+						okBase = true
+					}
+				}
+				if !okBase || len(all) != 1 {
+					w["stored_after_refused_edit"] = len(all)
+					sub.Violation("refused-edit-changed-the-stored-silences", w)
+					continue
+				}
+				if len(clean) > 0 {
+					c := silh.NewSilence("", clean, now, now.Add(time.Hour), "clean")
+					if err := st.S.Set(context.Background(), c); err != nil {
+						w["err"] = err.Error()
+						sub.Violation("valid-silence-refused", w)
+						continue
+					}
+				}
+				sub.Case(vf.Digest(nsets, pos, ei), true)
+			}
+		}
 	}
 }
